@@ -334,7 +334,14 @@ func (cs *CountSpec) callOutcomes(call *ssa.Call) []Outcome {
 		return nil
 	}
 	if cs.Descend == nil || !cs.Descend(callee) {
-		return nil
+		// a private helper of the function being enumerated (region.go) is part of it
+		root := call.Parent()
+		for root.Parent() != nil {
+			root = root.Parent()
+		}
+		if !cs.P.helpersOf(root)[callee] && !cs.P.helpersOf(call.Parent())[callee] {
+			return nil
+		}
 	}
 	if o, ok := cs.memo[callee]; ok {
 		return o
